@@ -6,26 +6,28 @@
     any other password fails."
 
     Model: Model/Wallet.v (ClientImpl with its pointer structure, WalletData save/load; the
-    call-site facts and tables come from Gen/WalletConsts.v, regenerated from the source).
+    call-site facts, the two guards and the tables come from Gen/WalletConsts.v, regenerated from
+    the source on every run).
     Cipher: any [enc]/[dec] with [ideal_cipher enc dec] (scrypt + AES-256-GCM; trusted base).
     Histories: any list of operations, including re-opening the wallet file in the middle
     ([OReload]), from an empty wallet with ANY scrypt parameters.
 
-    The full statement [c38_full_statement] is FALSE of the current code: three defects, each with
-    a witness ([c38_*_refuted]; the driver replays them on the implementation on every run).
-    What is proved is the statement for every history that contains no operation of a finding
-    class ([c38_wallet_persists_partial]); nothing else is missing from the full statement. *)
+    The statement is proved in full ([c38_wallet_persists]). Until commits e7837d8c, b42ffc8a and
+    8f73a249 of ontio/ontology it was false of the code (three defects); the three witnesses are
+    kept as regression inputs (corpus/C38, replayed on the implementation first on every run) and
+    as [c38_former_defects_repaired] below. Reverting any of the repairs flips a flag in
+    Gen/WalletConsts.v and the proof of the main theorem stops checking. *)
 From Coq Require Import List String NArith.
 Import ListNotations.
 From Ont Require Import Model.Wallet Proofs.C38.
 Local Open Scope string_scope.
 
 (** The full statement: for every ideal cipher, every scrypt parameter set of the wallet and every
-    history in which the caller keeps his obligations ([caller_ok]: generated keys are new,
-    imported keys were encrypted for this wallet with a non-empty password), after the history
-    and a reload: same view through every getter, the listed accounts are the ones created or
-    imported and not deleted, each opens with its current password to its key and with no
-    other password ([wallet_property]). *)
+    history in which imported keys were encrypted for this wallet with a non-empty password
+    ([caller_ok]: the only thing taken for granted; AccountMetadata cannot carry scrypt parameters),
+    after the history and a reload: same answers from every getter, the listed accounts are the
+    ones created or imported and not deleted, each opens with its current password to its key and
+    with no other password ([wallet_property]). *)
 Definition c38_full_statement : Prop :=
   forall (key blob : Type) (enc : ectx -> string -> key -> blob) (dec : ectx -> string -> blob -> option key),
     ideal_cipher enc dec ->
@@ -35,56 +37,24 @@ Definition c38_full_statement : Prop :=
         (fst (fst (run key blob enc dec (init blob prm) [] ops)))
         (snd (fst (run key blob enc dec (init blob prm) [] ops))).
 
-(** PARTIAL only in this sense: histories that contain an operation of one of the three finding
-    classes ([in_finding_class]: NewAccount on a wallet whose scrypt parameters NewAccount ignores,
-    ImportAccount of an address already held, ChangePassword to the empty password) are excluded.
-    Every other history is covered, at any length, with any interleaving of reloads. *)
-Theorem c38_wallet_persists_partial :
-  forall (key blob : Type) (enc : ectx -> string -> key -> blob) (dec : ectx -> string -> blob -> option key),
-    ideal_cipher enc dec ->
-    forall (prm : scrypt) (ops : list (op key)),
-      caller_ok key blob enc dec (init blob prm) ops ->
-      history_in_finding_class key blob enc dec (init blob prm) ops = false ->
-      wallet_property key blob dec
-        (fst (fst (run key blob enc dec (init blob prm) [] ops)))
-        (snd (fst (run key blob enc dec (init blob prm) [] ops))).
-Proof.
-  intros key blob enc dec Hideal prm ops Hc Hf.
-  apply (wallet_persists key blob enc dec Hideal). apply clean_split. split; assumption.
-Qed.
-Print Assumptions c38_wallet_persists_partial.
+Theorem c38_wallet_persists : c38_full_statement.
+Proof. exact wallet_persists. Qed.
+Print Assumptions c38_wallet_persists.
 
 (** The password clause also holds of the client in memory, before any reload. *)
-Theorem c38_guards_in_memory_partial :
+Theorem c38_guards_in_memory :
   forall (key blob : Type) (enc : ectx -> string -> key -> blob) (dec : ectx -> string -> blob -> option key),
     ideal_cipher enc dec ->
     forall (prm : scrypt) (ops : list (op key)),
       caller_ok key blob enc dec (init blob prm) ops ->
-      history_in_finding_class key blob enc dec (init blob prm) ops = false ->
       forall a k p,
         mget a (snd (fst (run key blob enc dec (init blob prm) [] ops))) = Some (k, p) ->
         opens_only_with key blob dec (fst (fst (run key blob enc dec (init blob prm) [] ops))) a k p.
-Proof.
-  intros key blob enc dec Hideal prm ops Hc Hf.
-  apply (wallet_guards_in_memory key blob enc dec Hideal). apply clean_split. split; assumption.
-Qed.
-Print Assumptions c38_guards_in_memory_partial.
-
-(** On a wallet with the default parameters (every wallet `NewWalletData` creates) NewAccount is
-    never in a finding class: the class is about non-default wallets only. *)
-Theorem c38_default_wallet_newaccount_clean :
-  new_wallet_scrypt = default_scrypt /\
-  forall (blob key : Type) (w : wallet blob) label sch pwd (ki : keyinfo key),
-    w_params blob w = default_scrypt -> in_finding_class key blob w (ONew key label sch pwd ki) = false.
-Proof.
-  split; [reflexivity|]. intros blob key w label sch pwd ki E. cbn [in_finding_class].
-  destruct (default_params_agree blob w E) as [-> _].
-  apply Bool.negb_false_iff, scrypt_eqb_eq. reflexivity.
-Qed.
-Print Assumptions c38_default_wallet_newaccount_clean.
+Proof. exact wallet_guards_in_memory. Qed.
+Print Assumptions c38_guards_in_memory.
 
 (** An operation that fails (or finds no such account) leaves the client, and therefore the
-    wallet file, unchanged: all histories, no exclusions. *)
+    wallet file, unchanged: all histories, all arguments. *)
 Theorem c38_failed_operation_changes_nothing :
   forall (key blob : Type) (enc : ectx -> string -> key -> blob) (dec : ectx -> string -> blob -> option key)
          (w : wallet blob) (o : op key),
@@ -92,43 +62,29 @@ Theorem c38_failed_operation_changes_nothing :
 Proof. exact failed_step_unchanged. Qed.
 Print Assumptions c38_failed_operation_changes_nothing.
 
-(** KNOWN FINDING newaccount:wallet-scrypt-ignored. NewAccount encrypts with
-    keypair.GetScryptParameters() whatever walletData.Scrypt says, getAccount decrypts with
-    walletData.Scrypt: on a wallet with the low-security parameters of `account export
-    --low-security` a new account does not open with its password (before or after a reload). *)
-Theorem c38_newaccount_scrypt_refuted :
-  caller_ok N iblob ienc idec (init iblob low_security_scrypt) wit_newaccount /\
-  ~ iprop low_security_scrypt wit_newaccount.
-Proof. exact (conj wit_newaccount_caller_ok wit_newaccount_fails). Qed.
-Print Assumptions c38_newaccount_scrypt_refuted.
+(** What the code must contain for the above (read from the source by the translator): NewAccount,
+    ChangePassword and getAccount all pass the wallet's scrypt parameters; addAccountData refuses an
+    address the wallet holds; ChangePassword refuses an empty new password. *)
+Theorem c38_code_facts :
+  newaccount_uses_wallet_scrypt = true /\ changepassword_uses_wallet_scrypt = true /\
+  getaccount_uses_wallet_scrypt = true /\ addaccount_refuses_held_address = true /\
+  changepassword_refuses_empty = true.
+Proof. repeat split; reflexivity. Qed.
+Print Assumptions c38_code_facts.
 
-(** KNOWN FINDING import:duplicate-address. ImportAccount does not refuse an address the wallet
-    holds: the slice gets two entries, accAddrs points to the second, DeleteAccount removes the
-    FIRST from the slice (the default account) and the address from accAddrs: the client then
-    shows no account, the reloaded file shows one, and no default account is left on file. *)
-Theorem c38_duplicate_import_refuted :
-  caller_ok N iblob ienc idec (init iblob default_scrypt) wit_dup_import /\
-  ~ iprop default_scrypt wit_dup_import.
-Proof. exact (conj wit_dup_import_caller_ok wit_dup_import_fails). Qed.
-Print Assumptions c38_duplicate_import_refuted.
+(** The three former defects, on the histories that used to witness them (replayed on the
+    implementation from corpus/C38): a new account on a low-security wallet opens with its password
+    after a reload; a second import of a held address is refused (and the default account still
+    cannot be deleted); ChangePassword to the empty password is refused. *)
+Theorem c38_former_defects_repaired :
+  snd (irun low_security_scrypt wit_newaccount) = [RKey 7%N] /\
+  get_account_by_address N iblob idec (reload iblob (fst (fst (irun low_security_scrypt wit_newaccount)))) "A1" "pw" = RKey 7%N /\
+  snd (irun default_scrypt wit_dup_import) = [ROk; EDupAddr; EDeleteDefault] /\
+  snd (irun default_scrypt wit_empty_pwd) = [ROk; EEmptyPwd].
+Proof. exact wit_results. Qed.
+Print Assumptions c38_former_defects_repaired.
 
-(** KNOWN FINDING chpwd:empty-new-password. ChangePassword accepts an empty new password (NewAccount
-    refuses one); DecryptWithCustomScrypt refuses every empty password: the account no longer
-    opens with its current password. *)
-Theorem c38_empty_new_password_refuted :
-  caller_ok N iblob ienc idec (init iblob default_scrypt) wit_empty_pwd /\
-  ~ iprop default_scrypt wit_empty_pwd.
-Proof. exact (conj wit_empty_pwd_caller_ok wit_empty_pwd_fails). Qed.
-Print Assumptions c38_empty_new_password_refuted.
-
-Theorem c38_full_statement_refuted : ~ c38_full_statement.
-Proof.
-  intros H. apply wit_dup_import_fails.
-  exact (H N iblob ienc idec ideal_instance default_scrypt wit_dup_import wit_dup_import_caller_ok).
-Qed.
-Print Assumptions c38_full_statement_refuted.
-
-(** Observation outside the property's text (no finding is registered for it): the reloaded client is
+(** Observation outside the property's text (nothing is registered for it): the reloaded client is
     NOT behaviourally identical to the client in memory. SetLabel(addr, "") leaves an entry
     accLabels[""] that load() does not rebuild; no getter shows it (the theorem above covers all
     getters), but a later SetLabel(other, "") is refused before the reload and accepted after it. *)
@@ -137,13 +93,13 @@ Theorem c38_note_reload_not_bisimilar :
               OImport N "y" "A2" "02a2" 1 0 "P-256" "" true default_scrypt "pw" 2%N;
               OSetLabel N "A1" ""] in
   let w := fst (fst (irun default_scrypt ops)) in
-  history_in_finding_class N iblob ienc idec (init iblob default_scrypt) ops = false /\
+  caller_ok N iblob ienc idec (init iblob default_scrypt) ops /\
   snd (step N iblob ienc idec w (OSetLabel N "A2" "")) = EDupLabel /\
   snd (step N iblob ienc idec (reload iblob w) (OSetLabel N "A2" "")) = ROk.
-Proof. vm_compute. repeat split. Qed.
+Proof. vm_compute. repeat split; discriminate. Qed.
 Print Assumptions c38_note_reload_not_bisimilar.
 
-(** Non-vacuity: a history outside the finding classes in which every kind of operation succeeds
+(** Non-vacuity: a history in which every kind of operation succeeds
     at least once (two creations, an import, relabel, default change, password change, scheme
     change, a reload in the middle, a deletion); the theorem then says that after a reload the
     wallet lists exactly "A2" and "A3", and "A2" opens with the CHANGED password only. *)
@@ -161,7 +117,6 @@ Definition nv_ops : list (op N) :=
 
 Example c38_nonvacuous :
   caller_ok N iblob ienc idec (init iblob default_scrypt) nv_ops /\
-  history_in_finding_class N iblob ienc idec (init iblob default_scrypt) nv_ops = false /\
   snd (irun default_scrypt nv_ops) = [RKey 11; RKey 12; ROk; ROk; ROk; ROk; ROk; ROk; RKey 11] /\
   snd (fst (irun default_scrypt nv_ops)) = [("A2"%string, (12, "new2"%string)); ("A3"%string, (13, "pw3"%string))] /\
   get_account_by_address N iblob idec (reload iblob (fst (fst (irun default_scrypt nv_ops)))) "A2" "new2" = RKey 12 /\
@@ -169,10 +124,9 @@ Example c38_nonvacuous :
   option_map (a_label iblob) (get_meta_by_address iblob (reload iblob (fst (fst (irun default_scrypt nv_ops)))) "A3") = Some "two_1"%string.
 Proof.
   split; [vm_compute; repeat split; discriminate|].
-  split; [vm_compute; reflexivity|].
-  pose proof (c38_wallet_persists_partial N iblob ienc idec ideal_instance default_scrypt nv_ops) as P.
+  pose proof (c38_wallet_persists N iblob ienc idec ideal_instance default_scrypt nv_ops) as P.
   assert (C : caller_ok N iblob ienc idec (init iblob default_scrypt) nv_ops) by (vm_compute; repeat split; discriminate).
-  specialize (P C eq_refl). destruct P as (_ & _ & P).
+  specialize (P C). destruct P as (_ & _ & P).
   split; [vm_compute; reflexivity|]. split; [vm_compute; reflexivity|].
   destruct (P "A2"%string 12 "new2"%string) as [P1 P2]; [vm_compute; reflexivity|].
   split; [exact P1|]. split; [apply P2; discriminate|]. vm_compute. reflexivity.
